@@ -4,7 +4,10 @@ import (
 	"encoding/json"
 	"fmt"
 	"os"
+	"runtime"
+	"sort"
 	"strconv"
+	"strings"
 	"testing"
 	"testing/synctest"
 	"time"
@@ -69,10 +72,94 @@ func vfBubble(t *testing.T, name string, f func()) (hung bool) {
 	case <-done:
 		return false
 	case <-time.After(time.Duration(vfEnvInt("VF_WATCHDOG_S", 120)) * time.Second):
+		// A bubble that makes no progress in real time. If two stack samples show every goroutine of the
+		// bubble blocked (none running / runnable / in a syscall) in the same place, the scenario is
+		// deadlocked in the real code: that is an observation for the trace (C09/C20), not a harness failure.
+		if st := vfStuck(); st != nil && vfCurTrace != nil && vfCurTrace.mu.TryLock() {
+			ls := []any{}
+			for _, x := range st {
+				ls = append(ls, x)
+			}
+			vfCurTrace.emitLocked(map[string]any{"ev": "deadlock", "name": name, "stacks": ls, "n": len(ls)})
+			vfCurTrace.mu.Unlock()
+			fmt.Fprintf(os.Stderr, "VF-DEADLOCK scenario=%s\n", name)
+			return true
+		}
 		fmt.Fprintf(os.Stderr, "VF-HANG scenario=%s\n", name)
 		vfHung = append(vfHung, name)
 		return true
 	}
+}
+
+var (
+	vfCurTrace  *vfTrace         // trace of the world most recently created (scenarios run one at a time)
+	vfDeadGoros = map[string]bool{} // goroutines of earlier deadlocked bubbles
+)
+
+// vfStuck returns one line per goroutine of synctest bubbles (other than those of earlier deadlocked
+// scenarios) if all of them are blocked, at least one of them on a mutex (which is why virtual time cannot
+// advance), identically in two samples taken 700 ms apart; nil otherwise.
+func vfStuck() []string {
+	sample := func() (map[string]string, bool) {
+		buf := make([]byte, 1<<22)
+		n := runtime.Stack(buf, true)
+		m := map[string]string{}
+		mutex := false
+		for _, g := range strings.Split(string(buf[:n]), "\n\n") {
+			lines := strings.Split(g, "\n")
+			h := lines[0]
+			if !strings.Contains(h, "synctest bubble") {
+				continue
+			}
+			id := strings.Fields(h)[1]
+			if vfDeadGoros[id] {
+				continue
+			}
+			if strings.Contains(h, "[running") || strings.Contains(h, "[runnable") || strings.Contains(h, "syscall") || strings.Contains(h, "IO wait") {
+				return nil, false
+			}
+			if strings.Contains(h, "Mutex") {
+				mutex = true
+			}
+			fn := ""
+			for _, l := range lines[1:] {
+				if strings.Contains(l, "pion/sctp.") && !strings.Contains(l, "created by") {
+					fn = strings.TrimSpace(l)
+					if i := strings.Index(fn, "("); i > 0 && strings.HasPrefix(fn, "github.com") {
+						fn = fn[:strings.LastIndex(fn, "(")]
+					}
+					break
+				}
+			}
+			st := h[strings.Index(h, "["):]
+			if i := strings.Index(st, ","); i > 0 {
+				st = st[:i] + "]"
+			}
+			m[id] = st + " " + strings.TrimPrefix(fn, "github.com/pion/sctp.")
+		}
+		return m, mutex
+	}
+	a, mu1 := sample()
+	if a == nil || !mu1 {
+		return nil
+	}
+	time.Sleep(700 * time.Millisecond)
+	b, mu2 := sample()
+	if b == nil || !mu2 || len(a) != len(b) {
+		return nil
+	}
+	out := []string{}
+	for id, s := range a {
+		if b[id] != s {
+			return nil
+		}
+		out = append(out, s)
+	}
+	for id := range a {
+		vfDeadGoros[id] = true
+	}
+	sort.Strings(out)
+	return out
 }
 
 func init() {
